@@ -32,7 +32,7 @@ ASSUMPTIONS = [
 FLOORS = {
     'quick': {'programs': 6000, 'both_accepted': 12000, 'setting:ignorecase': 1200, 'setting:nameguard_off': 1200,
               'setting:whitespace': 1200, 'setting:parseinfo': 1200, 'sem:tagging': 2000, 'sem:identity': 2000,
-              'kwlike_names': 400, 'pyconst_tokens': 400, 'with_params': 400, 'with_directives': 1200},
+              'kwlike_names': 400, 'pyconst_tokens': 400, 'long_names': 600, 'reused_instance_parses': 20000, 'with_params': 400, 'with_directives': 1200},
     'thorough': {'programs': 100000, 'both_accepted': 200000},
 }
 N = {'quick': 9600, 'thorough': 160000}
@@ -121,6 +121,11 @@ def gen_case(rng):
         g.directives = d
         if d:
             features.add('with_directives')
+    if rng.random() < 0.25:
+        # long element names: the generator folds long ctx.define(...) lines differently
+        g = rename_elements(g, {'n': 'first_operand_expression_node', 'm': 'modifiers_and_annotations_list',
+                                'k': 'optional_trailing_separator_token'})
+        features.add('long_names')
     if rng.random() < 0.2:
         g.keywords = tuple(rng.sample(['a', 'b', 'bb', 'c'], 2))
         for r in g.rules:
@@ -128,6 +133,16 @@ def gen_case(rng):
                 r.decorators = ('name',)
         features.add('with_keywords')
     return g, features, saved
+
+
+def rename_elements(g, mapping):
+    def rn(e):
+        kids = [rn(k) for k in L.children(e)]
+        if isinstance(e, (L.Named, L.NamedList)):
+            return type(e)(mapping.get(e.n, e.n), kids[0])
+        return L.rebuild(e, kids) if kids else e
+    return L.Grammar([L.Rule(r.name, rn(r.body), r.decorators, r.params, r.kwparams, r.base) for r in g.rules],
+                     dict(g.directives), tuple(g.keywords))
 
 
 def retoken(g, mapping):
@@ -182,6 +197,7 @@ class Pair:
         self.err = None
         self.model = None
         self.parser_cls = None
+        self.reused = None
         self.src = None
         try:
             self.model = L.to_model(g, name='T')
@@ -201,6 +217,12 @@ class Pair:
         a = outcome(self.model.parse, text, settings, semname)
         b = outcome(lambda t, **kw: self.parser_cls().parse(t, **kw), text, settings, semname)
         return a, b
+
+    def run_reused(self, text, settings, semname):
+        """the same input on ONE long-lived parser object (earlier parses, also failed ones, must not matter)"""
+        if self.reused is None:
+            self.reused = self.parser_cls()
+        return outcome(self.reused.parse, text, settings, semname)
 
 
 def relation(a, b):
@@ -308,6 +330,16 @@ def check_pair(acc, g, texts, origin, features=()):
             acc.count('both_failed' if b[0] == 'fail' else 'model_failed')
         tag = relation(a, b)
         if tag is None:
+            c = p.run_reused(text, settings, semname)
+            acc.count('reused_instance_parses')
+            if relation(b, c) is not None:
+                acc.count('disagreements_checked')
+                acc.violation(f'reused-parser-object/{relation(b, c)}',
+                              f'a generated parser object that already parsed other inputs gives a different result than a fresh one: '
+                              f'grammar {L.grammar_text(g).strip()!r} input {text!r} settings {settings} semantics {semname}: '
+                              f'FRESH={b} REUSED={c} (earlier inputs: {texts[:texts.index(text)]})',
+                              {'grammar': L.to_json(g), 'grammar_text': L.grammar_text(g), 'text': text, 'settings': settings,
+                               'sem': semname, 'earlier': texts[:texts.index(text)], 'origin': origin})
             continue
         acc.count('disagreements_checked')
         mech = mechanism(g, text, settings, tag, a, b)
